@@ -505,6 +505,12 @@ func (c *Ctx) Map(t *rapid.T, depth int) *model.Node {
 	n := &model.Node{Kind: model.KObject}
 	if rapid.Bool().Draw(t, "maptyped") {
 		n.Additional = &model.Additional{Schema: c.addlValue(t)}
+		// the nullable idiom on map values ([T,"null"] in either order): map[string]*T
+		if v := n.Additional.Schema; (v.Kind == model.KString || v.Kind == model.KInteger || v.Kind == model.KNumber || v.Kind == model.KBoolean) &&
+			rapid.IntRange(0, 2).Draw(t, "mapvaluenull") == 0 {
+			v.Nullable = true
+			v.NullFirst = rapid.Bool().Draw(t, "mapvaluenullfirst")
+		}
 	}
 	return n
 }
